@@ -561,12 +561,6 @@ func (ep *ringEp) step(t *rthread) (string, *rres) {
 	return "ok", t.lastRes
 }
 
-func b01(b bool) string {
-	if b {
-		return "1"
-	}
-	return "0"
-}
 
 func (t *rthread) posStr() string {
 	if !t.declared {
